@@ -149,8 +149,8 @@ def check_write(mem, version, code, dest_seed, case):
     except Exception as e:
         raise Violation('cannot build a cart from generated source: %r' % e, case, 'build')
     # the label argument left out, or passed explicitly as None (documented as "no override")
-    kw = {'label_fname': None} if case.get('explicit_none_label') else {}
-    if kw:
+    label_kw = {'label_fname': None} if case.get('explicit_none_label') else {}
+    if label_kw:
         labs.append('label_fname_none_passed')
     code0 = b''.join(g.lua.to_lines())
     with tempfile.TemporaryDirectory(prefix='c04_') as td:
@@ -168,7 +168,7 @@ def check_write(mem, version, code, dest_seed, case):
             before = None
             labs.append('dest_absent')
         try:
-            pfile.to_file(g, path, **kw)
+            pfile.to_file(g, path, **label_kw)
             err = None
         except Exception as e:
             err = e
@@ -229,7 +229,7 @@ def check_write(mem, version, code, dest_seed, case):
         if case.get('twice'):
             # the same cart written again in the same process, now over its own output
             try:
-                pfile.to_file(g, path, **kw)
+                pfile.to_file(g, path, **label_kw)
             except Exception as e:
                 raise Violation('writing the same fitting cart a second time raised %r' % e, case, 'second-write')
             data2 = open(path, 'rb').read()
